@@ -4,7 +4,7 @@ open Drv
 open _root_.C31
 
 structure St where
-  L : Limits
+  C : Codec
   buf : List Nat
   dead : Bool
 
@@ -15,6 +15,24 @@ def parseLimits (cfg : List String) : Limits :=
   match (findTok "L=" cfg).bind natList with
   | some [a, b, c] => ⟨a, b, c⟩
   | _ => ⟨100, 5, 50⟩
+
+/-- `T=<topic hex>:<max>,…` or `T=-` -/
+def parsePerTopic (cfg : List String) : List (List Nat × Nat) :=
+  match findTok "T=" cfg with
+  | none => []
+  | some s =>
+    if s = "-" then [] else
+    (s.splitOn ",").filterMap fun e =>
+      match e.splitOn ":" with
+      | [t, m] => match unhex t, m.toNat? with
+        | some t, some m => some (t, m)
+        | _, _ => none
+      | _ => none
+
+/-- `GossipsubCodec::new(global, mode, per_topic, max_publish, max_control)` -/
+def codecOf (cfg : List String) : Codec :=
+  let l := parseLimits cfg
+  Codec.new l.max (parsePerTopic cfg) l.maxPublish l.maxControl
 
 def parseFrames (cfg : List String) : List FrameInfo :=
   match findTok "F=" cfg with
@@ -28,13 +46,21 @@ def parseFrames (cfg : List String) : List FrameInfo :=
 
 def countTag (t : Nat) (fs : List Tok) : Nat := (fs.filter (·.1 = t)).length
 
-def showRun (r : List (List Tok) × Option Err × List Nat) : String :=
-  let oks := r.1.map fun fs => s!"ok:{countTag 1 fs},{countTag 2 fs}"
-  let all := oks ++ (match r.2.1 with | some e => ["err:" ++ e.name] | none => [])
-  if all.isEmpty then "-" else unwords all
+/-- decode from the buffer like `drainE`, rendering each delivered RPC as
+`ok:<subscriptions>,<publish entries>,<entries rejected by the per-topic size check>` -/
+def render (C : Codec) : Nat → List Nat → List String × Bool × List Nat
+  | 0, buf => ([], false, buf)
+  | fuel + 1, buf =>
+    match C.decodeStep buf with
+    | .needMore => ([], false, buf)
+    | .err e => (["err:" ++ e.name], true, buf)
+    | .ok fs rest =>
+      let body := frameBody buf
+      let (more, dead, r) := render C fuel rest
+      (s!"ok:{countTag 1 fs},{countTag 2 fs},{C.invalidCount body}" :: more, dead, r)
 
 def machine : Machine St SpecSt where
-  init cfg := ⟨parseLimits cfg, [], false⟩
+  init cfg := ⟨codecOf cfg, [], false⟩
   specInit cfg := ⟨(parseLimits cfg).max, parseFrames cfg, 0, 0, false⟩
   op st args :=
     match args with
@@ -42,8 +68,9 @@ def machine : Machine St SpecSt where
       match unhex h with
       | some bytes =>
         if st.dead then (st, "-") else
-        let r := feedE (decodeStep st.L) st.buf bytes
-        ({ st with buf := r.2.2, dead := r.2.1.isSome }, showRun r)
+        let buf := st.buf ++ bytes
+        let (toks, dead, r) := render st.C buf.length buf
+        ({ st with buf := r, dead := dead }, if toks.isEmpty then "-" else unwords toks)
       | none => (st, "bad-op")
     | _ => (st, "bad-op")
   spec s args outs :=
